@@ -1861,10 +1861,19 @@ func ruleSubspaceKernel(r *Run, rule string) {
 	w := r.W
 	r.Doc(rule, "codeword choice or table entries are not the squared L2 distance of the sub-vectors: ranks by something else than the asymmetric distance")
 	isKernelFn := func(g *ssa.Function) bool {
-		if g == nil || g.Pkg != w.SPkg || len(g.Params) != 2 || g.Signature.Results().Len() != 1 || !isFloat32(g.Signature.Results().At(0).Type()) {
+		if g == nil || g.Pkg != w.SPkg || g.Signature.Results().Len() != 1 || !isFloat32(g.Signature.Results().At(0).Type()) {
 			return false
 		}
-		accs := accumulators(w, g, map[int]string{0: "x", 1: "y"})
+		// a plain function of the two vectors, or a method of a distance implementation (receiver first)
+		names := map[int]string{0: "x", 1: "y"}
+		switch {
+		case len(g.Params) == 2 && g.Signature.Recv() == nil:
+		case len(g.Params) == 3 && g.Signature.Recv() != nil:
+			names = map[int]string{1: "x", 2: "y"}
+		default:
+			return false
+		}
+		accs := accumulators(w, g, names)
 		if len(accs) != 1 || accs[0].Init != "0" || accs[0].Update != eAdd("acc", eMul(eSub("x", "y"), eSub("x", "y"))) {
 			return false
 		}
